@@ -238,6 +238,15 @@ func (cc *Conn) Context() context.Context {
 	return cc.session.Context()
 }
 
+// Ping issues a PING to the peer and waits for the PONG response.
+//
+// Like every other blocking request it may be called from a handler: another loop takes over
+// the receive queue while it waits, otherwise the pong could not be read behind queued messages.
+func (cc *Conn) Ping(ctx context.Context) error {
+	cc.receivedMessageReader.TryToReplaceLoop()
+	return cc.Client.Ping(ctx)
+}
+
 // AsyncPing sends ping and receivedPong will be called when pong arrives. It returns cancellation of ping operation.
 func (cc *Conn) AsyncPing(receivedPong func()) (func(), error) {
 	token, err := message.GetToken()
